@@ -1,6 +1,7 @@
 /-
 Props/C06.lean — property C06 "IPSet is canonical after any history, so equality is
-extensional".  Property theorems only; lemmas are in Lemmas/IPSetL1..L5, CanonSetL, MergeUp.
+extensional".  Property theorems only; lemmas are in Lemmas/IPSetL1..L11, IPSetDiff1..5,
+CanonSetL, MergeUp.
 
 Statement (properties.jsonl): after any sequence of constructions and mutations the content
 an IPSet shows is the unique minimal, sorted, host-bit-free CIDR list of exactly the
@@ -161,35 +162,35 @@ theorem remove_spec (s : St) (hs : Inv s) (x : Arg) (hx : ArgOK x) :
 
 /-- **Every reachable state.**  After ANY finite history over any number of live sets —
     constructors from a network / range / set / list, `add`, `remove`, both `update` forms, `clear`,
-    `pop`, `compact`, `copy`/pickling, and the results of `|` and `&` — every live set is
-    canonical (`Inv`) and denotes exactly the (version, address) pairs that plain set theory
-    assigns to that history (`specStep`).  Induction over the history; one `step_rel` case
-    per operation.
-
-    PARTIAL: `Op.OK` excludes the operators `-` and `^`.  The full statement is this theorem
-    with `Op.OK` only demanding well-formed arguments; what is missing is the step case for
-    those two operators (their specifications are stated in `combine`); they are tied by
-    correspondence and the oracle only. -/
-theorem reachable_partial (ops : List Op) (hok : ∀ op ∈ ops, op.OK) :
+    `pop`, `compact`, `copy`/pickling, and the results of all four binary operators `|`, `&`,
+    `-`, `^` — every live set is canonical (`Inv`) and denotes exactly the (version, address)
+    pairs that plain set theory assigns to that history (`specStep`, `combine`).  Induction
+    over the history; one `step_rel` case per operation.  `Op.OK` only demands well-formed
+    arguments (in-range networks, `lo ≤ hi` ranges inside their family, a host-bit-free
+    block for the value `pop` returned); no operation is excluded. -/
+theorem reachable (ops : List Op) (hok : ∀ op ∈ ops, op.OK) :
     ∀ i, Inv (getSet (runOps ops) i) ∧
       ∀ u a, denS (getSet (runOps ops) i) u a ↔ (runBoth ops).2 i u a := by
   have := history_rel ops hok
   rw [runBoth_fst] at this
   exact this
 
-/-- consequently, two sets reached by any two (covered) histories compare equal iff the
+/-- consequently, two sets reached by any two histories compare equal iff the
     histories denote the same addresses, and then they show the same list -/
 theorem reachable_eq_iff (ops₁ ops₂ : List Op) (h₁ : ∀ op ∈ ops₁, op.OK) (h₂ : ∀ op ∈ ops₂, op.OK) (i j : Nat) :
     IPSet.eq (getSet (runOps ops₁) i) (getSet (runOps ops₂) j) = true ↔
       ∀ u a, (runBoth ops₁).2 i u a ↔ (runBoth ops₂).2 j u a := by
-  obtain ⟨i1, d1⟩ := reachable_partial ops₁ h₁ i
-  obtain ⟨i2, d2⟩ := reachable_partial ops₂ h₂ j
+  obtain ⟨i1, d1⟩ := reachable ops₁ h₁ i
+  obtain ⟨i2, d2⟩ := reachable ops₂ h₂ j
   rw [eq_iff _ _ i1 i2]
   constructor
   · intro h u a; rw [← d1 u a, ← d2 u a]; exact h u a
   · intro h u a; rw [d1 u a, d2 u a]; exact h u a
 
 example : (Op.add 0 (.net ⟨4, 0x0a000005, 24⟩)).OK := by simp [Op.OK, ArgOK, Net.WF, width]
+example : (Op.bin 2 0 1 .sub).OK ∧ (Op.bin 2 0 1 .xor).OK := ⟨trivial, trivial⟩
+example : ∀ op ∈ [Op.newNet 0 ⟨4, 0x0a000005, 24⟩, Op.newRng 1 ⟨6, 1, 77⟩, Op.bin 2 0 1 .xor, Op.bin 3 2 0 .sub],
+    op.OK := by simp [Op.OK, ArgOK, Net.WF, width]
 
 /-! ### non-vacuity -/
 example : (⟨4, 0x0a000005, 24⟩ : Net).WF := by simp [Net.WF, width]
